@@ -177,7 +177,7 @@ class CutplaceApp(object):
                 rows_to_validate = reader.rows()
                 if self.validate_until is not None:
                     # Same as cutplace.validate(): stop reading once the rows to validate have been seen.
-                    rows_to_validate = itertools.islice(rows_to_validate, self.validate_until)
+                    rows_to_validate = itertools.islice(rows_to_validate, min(self.validate_until, sys.maxsize))
                 for _ in rows_to_validate:
                     pass
             # With "--until 0" not a single row is asked for, so the reader never started counting.
